@@ -396,7 +396,10 @@ func (r *lbRun) apply(o lbOp, check bool) {
 					sig := "premature-free" + r.splitTagOr(" seen-by="+opNames[o.K])
 					if blk := r.led.FreedOverlap(got); blk != nil {
 						if _, ok := r.splitBlocks[blk.Base]; ok {
-							sig = "premature-free block=WriteDirect-split"
+							// the freeing call site is part of the signature: the recorded finding is the
+							// split-off node giving the block back when IT is released; a free of such a
+							// block from anywhere else is a different defect
+							sig = "premature-free block=WriteDirect-split " + splitFreedBy(blk.FreeSite)
 						} else {
 							sig = "premature-free freed_in=" + blk.FreeSite + " seen-by=" + opNames[o.K]
 						}
@@ -739,10 +742,46 @@ func firstDiff(a, b []byte) int {
 	return n
 }
 
+// splitFreedBy classifies where a block shared by a WriteDirect split was given back to the pool.
+// The recorded finding is the reader side releasing the consumed split-off node (Release, Close,
+// the copy-read's recycling, the donor-head release of Append); a free from anywhere else - e.g.
+// from the writer side - is a different defect and keeps its call site in the signature.
+func splitFreedBy(site string) string {
+	switch site {
+	case "(*linkBufferNode).Release<(*UnsafeLinkBuffer).Release", "(*linkBufferNode).Release<(*UnsafeLinkBuffer).Close",
+		"(*linkBufferNode).Release<(*UnsafeLinkBuffer).readCopy", "(*linkBufferNode).Release<(*UnsafeLinkBuffer).WriteBuffer":
+		return "freed_by=consumed-node-release"
+	}
+	return "freed_in=" + site
+}
+
 // splitTag: does the history contain a WriteDirect split (root cause discriminator for signatures)?
 func (r *lbRun) splitTag() string {
 	if len(r.splitBlocks) > 0 {
-		return " history=WriteDirect-split"
+		// the block cannot be identified from a private copy: name where the split blocks that
+		// have been returned to the pool so far were freed
+		var sites []string
+		seen := map[string]bool{}
+		for _, b := range r.led.Blocks {
+			if _, ok := r.splitBlocks[b.Base]; ok && !b.Live && !seen[b.FreeSite] {
+				seen[b.FreeSite] = true
+				sites = append(sites, b.FreeSite)
+			}
+		}
+		if len(sites) == 0 {
+			return ""
+		}
+		sort.Strings(sites)
+		by := map[string]bool{}
+		for _, st := range sites {
+			by[splitFreedBy(st)] = true
+		}
+		var bys []string
+		for k := range by {
+			bys = append(bys, k)
+		}
+		sort.Strings(bys)
+		return " history=WriteDirect-split " + strings.Join(bys, ",")
 	}
 	return ""
 }
@@ -780,7 +819,7 @@ func (r *lbRun) audit(o lbOp) {
 		if blk := r.led.FreedOverlap(x.data); blk != nil {
 			sig := fmt.Sprintf("uaf result=%s freed_in=%s", x.kind, blk.FreeSite)
 			if _, ok := r.splitBlocks[blk.Base]; ok {
-				sig = "uaf block=WriteDirect-split"
+				sig = "uaf block=WriteDirect-split " + splitFreedBy(blk.FreeSite)
 			}
 			r.fail("C02", sig, fmt.Sprintf("after %s: the %d bytes returned by an earlier %s (reader not released since) are in a pool block that was freed in %s", o, len(x.data), x.kind, blk.FreeSite))
 			x.dead = true
@@ -851,6 +890,24 @@ func chainInvariant(ch netpoll.VerifChain, appended bool) string {
 		if n.Off > n.Len || n.Len > n.Malloc && i >= ch.Flush && n.Malloc != 0 {
 			return fmt.Sprintf("node %d: off=%d len=%d malloc=%d", i, n.Off, n.Len, n.Malloc)
 		}
+	}
+	// Look-ahead: bytes that are neither readable nor pending must not sit in the chain as
+	// "malloc'ed but not yet flushed" anywhere, because the next Flush whose write cursor has moved
+	// across such a node commits them (Flush publishes malloc as len for every node it passes).
+	// So the pending bytes the chain holds from the flush node on must be exactly MallocSize,
+	// and no node behind the write cursor may hold any.
+	pend := 0
+	for i := ch.Flush; i < len(ch.Nodes); i++ {
+		n := ch.Nodes[i]
+		if n.Malloc > n.Len {
+			if i > ch.Write {
+				return fmt.Sprintf("node %d behind the write cursor (%d) still holds %d malloc'ed, discarded bytes that a later Flush would publish", i, ch.Write, n.Malloc-n.Len)
+			}
+			pend += n.Malloc - n.Len
+		}
+	}
+	if pend != ch.MallocSize {
+		return fmt.Sprintf("nodes from the flush cursor on hold %d pending bytes but MallocLen is %d", pend, ch.MallocSize)
 	}
 	return ""
 }
@@ -1088,6 +1145,7 @@ func lbConfigs(tier string) []*lbCfg {
 	seeds := map[string][]lbOp{
 		"wdsplit":   {{K: oMalloc, N: 8}, {K: oMalloc, N: 1}, {K: oWriteDirect, N: 3, M: 1}, {K: oFlush}},
 		"wdmid":     {{K: oMalloc, N: 9}, {K: oWriteDirect, N: 3, M: 4}, {K: oFlush}},
+		"wdpending": {{K: oMalloc, N: 8}, {K: oWriteDirect, N: 3, M: 1}}, // split still unflushed: MallocAck may cut it
 		"nocopy":    {{K: oWriteBinary, N: 4097}, {K: oMalloc, N: 3}, {K: oFlush}},
 		"multiread": {{K: oMalloc, N: 8}, {K: oFlush}, {K: oMalloc, N: 8}, {K: oFlush}, {K: oMalloc, N: 3}, {K: oFlush}, {K: oNext, N: 9}},
 		"peekcache": {{K: oAppend, M: 2}, {K: oFlush}, {K: oPeek, N: 9}},
